@@ -1,7 +1,8 @@
 #!/bin/bash
-# Re-evaluates every stored seeded change against the check of its property (quick tier) and stores result.json next to it.
+# Re-evaluates stored seeded changes (all, or those whose directory name matches $1) against the check of their
+# property (quick tier, plus the checks listed in extra_checks) and stores result.json next to them.
 cd /verif
-for d in seeded/*/; do
+for d in seeded/*${1}*/; do
   n=$(basename $d)
   extra=""
   [ -f $d/extra_checks ] && extra=$(cat $d/extra_checks)
